@@ -259,6 +259,15 @@ class FunctionExtractor:
                 self.ed.replace(amp, amp + 1, '*')
                 self.refvars.add(prm.get('id'))
                 self.rules.append('R8')
+            if prm.get('init'):
+                # R13: default argument dropped from the signature (C has none); a call that relies on it is refused (v_CXXDefaultArgExpr)
+                pb, pe = _off(prm['range']['begin']), _end(prm['range']['end'])
+                ex = [c for c in prm.get('inner', []) if 'range' in c]
+                eq = self.src.rfind('=', pb, _off(ex[-1]['range']['begin'])) if ex else -1
+                if eq < 0:
+                    raise ExtractionError('default argument without = token')
+                self.ed.replace(eq, pe, '')
+                self.rules.append('R13')
         if self.is_ctor or self.is_dtor:
             ptxt = [src[_off(p['range']['begin']):_end(p['range']['end'])] for p in params]
             sig = '%s* %s(%s)' % (self.cls, self.fname, ', '.join(['%s* self' % self.cls] + ptxt))
@@ -406,6 +415,13 @@ class FunctionExtractor:
         elif n.get('id'):
             self.nonstatic_locals.add(n['id'])
             qt = n.get('type', {}).get('qualType', '')
+            ce = [c for c in n.get('inner', []) if c.get('kind') == 'CXXConstructExpr']
+            if ce and not (ce[0].get('inner') or []) and re.match(r'^\w+$', qt):
+                # R14b: `T x;` where T is a plain struct of this file (trivial default constructor: no code) -> copied as written
+                extract_plain_struct(self.cpp_rel, qt)        # raises unless T is plain
+                self.rules.append('R14b')
+                self._skip = True
+                return
             if qt.endswith('&'):
                 # R8b: local reference  T &x = e;  ->  T *x = &(e);  uses x.m -> x->m
                 b = _off(n['range']['begin']); e = _end(n['range']['end'])
@@ -616,13 +632,14 @@ class FunctionExtractor:
             self.ed.replace(b, e, '%s__dtor(%s)' % (cls, otxt))
             self.rules.append('R5b')
             return
-        if callee.get('kind') == 'MemberExpr' and callee.get('name') in ('fread',) and self._refbase(callee['inner'][0]) is not None:
-            # R8: F.fread(p, n) on the stream parameter -> Istream_fread(F, p, n) (virtual dispatch: one stub contract for both stream classes)
+        if callee.get('kind') == 'MemberExpr' and callee.get('name') in ('fread', 'fwrite') and self._refbase(callee['inner'][0]) is not None:
+            # R8: F.fread(p, n) / F.fwrite(p, n) on the stream parameter -> Istream_fread(F, p, n) / Ostream_fwrite(F, p, n)
+            # (virtual dispatch: one stub contract for both stream classes)
             obj = self._refbase(callee['inner'][0])
             oname = obj['referencedDecl']['name']
             cb = _off(callee['range']['begin']); ce = _end(callee['range']['end'])
             par = self.src.find('(', ce)
-            self.ed.replace(cb, par + 1, 'Istream_%s(%s, ' % (callee['name'], oname))
+            self.ed.replace(cb, par + 1, '%s_%s(%s, ' % ('Istream' if callee['name'] == 'fread' else 'Ostream', callee['name'], oname))
             self.rules.append('R8')
             for a in n['inner'][1:]:
                 self.walk(a)
@@ -659,6 +676,9 @@ class FunctionExtractor:
             return
         for c in n['inner']:
             self.walk(c)
+
+    def v_CXXDefaultArgExpr(self, n):
+        raise ExtractionError('call relies on a default argument (R13 drops them) in ' + self.qual)
 
     def v_CXXOperatorCallExpr(self, n):
         raise ExtractionError('operator call (R9 sampler rule not enabled) in ' + self.qual)
@@ -828,6 +848,43 @@ def extract_cxx_constants():
     if len(out) < 2:
         raise ExtractionError('numeric_functions.h constants not found')
     return '\n'.join(out) + '\n'
+
+
+def extract_plain_struct(cpp_rel, name):
+    """R14: a file-scope plain-data struct defined in a .cpp file (only scalar / pointer fields, no methods, no bases):
+    the definition is copied verbatim and given the C typedef that C++ implies."""
+    cpp = os.path.join(SRC, cpp_rel)
+    src = open(cpp, 'rb').read().decode('latin-1')
+    objs = clang_ast(cpp, name)
+    cands = []
+    for o in objs:
+        if o.get('kind') == 'CXXRecordDecl' and o.get('name') == name and o.get('completeDefinition'):
+            off = o.get('loc', {}).get('offset')
+            if off is not None and src[off:off + len(name)] == name:
+                cands.append(o)
+    if len(cands) != 1:
+        raise ExtractionError('%s: expected exactly one definition of struct %s, found %d' % (cpp_rel, name, len(cands)))
+    d = cands[0]
+    if d.get('tagUsed') != 'struct' or d.get('bases'):
+        raise ExtractionError('struct %s is not a plain struct' % name)
+    for c in d.get('inner', []) or []:
+        k = c.get('kind')
+        if k == 'FieldDecl':
+            if any(x.get('kind') not in (None,) for x in c.get('inner', []) or []):
+                raise ExtractionError('struct %s: field %s has an initialiser' % (name, c.get('name')))
+            continue
+        if k == 'CXXRecordDecl' and c.get('isImplicit'):
+            continue
+        if c.get('isImplicit'):
+            continue
+        raise ExtractionError('struct %s has a member that is not a plain field: %s' % (name, k))
+    b, e = _off(d['range']['begin']), _end(d['range']['end'])
+    body = src[b:e]
+    line = src.count('\n', 0, b) + 1
+    text = 'typedef struct %s %s;\n#line %d "%s"\n%s;\n' % (name, name, line, cpp, body)
+    return {'file': cpp, 'function': 'struct ' + name, 'c_name': 'struct ' + name, 'byte_range': [b, e], 'line': line,
+            'sha256_source': hashlib.sha256(body.encode('latin-1')).hexdigest(), 'sha256_extracted': hashlib.sha256(text.encode('latin-1')).hexdigest(),
+            'rules': ['R14'], 'loops': 0, 'loop_shape': [], 'text': text}
 
 
 def extract_uid_constants():
